@@ -200,6 +200,8 @@ def m_zip(I, *its):
 
 
 def m_list(I, x=()):
+    if hasattr(x, "pyvc_copy"):
+        return x.pyvc_copy(I)               # a list given by ghost structure: its copy is a snapshot of that structure
     return list(I.iterate(x))
 
 
